@@ -545,8 +545,40 @@ def make_grid_case(seed, cid, quick=True):
                 jj = fresh(); L.append("lim %s %d %d %d -1 %s plain %d" % (w, jj, pairs[1][0], pairs[1][1], fmt_cgs(cs), res[1]))
                 L.append("#! same %d %d" % (i, jj))
             X[w] = nx
+    if r.random() < 0.6:
+        aa = [0] * n; aa[r.randrange(n)] = 1
+        cs = [(r.choice([0, 2, 3]), r.randint(-3, 3), aa)]
+        for w in GRID_WIDENINGS:
+            grid_empty_probe(L, fresh, r, "G", n, w, X[w], GRID_ROUTES, fmt_cgs(cs))
     L.append("end")
     return L
+
+
+GRID_ESTATES = ["addc", "refine", "cons", "meet", "queried", "minq", "pend"]
+
+
+def grid_empty_probe(L, fresh, r, dom, n, w, x, routes, cs_text):
+    """x widened by the empty set in several emptiness states (second pipeline: no `bounded', lim takes cgs)."""
+    x2 = fresh(); L.append("mk %d %s %d %d" % (x2, r.choice(routes), x, r.randrange(1 << 20)))
+    states = ["marked"] + r.sample(GRID_ESTATES, 3)
+    base = None
+    for k, st in enumerate(states):
+        ye = fresh(); L.append("newe %d %s %d %s %d" % (ye, dom, n, st, r.randrange(1 << 20)))
+        xi = x if k % 2 == 0 else x2
+        p = fresh(); L.append("widen %s %d %d %d -1" % (w, p, xi, ye))
+        t = fresh(); L.append("widen %s %d %d %d 2 plain %d" % (w, t, xi, ye, p))
+        ids = [p, t]
+        if cs_text is not None:
+            l = fresh(); L.append("lim %s %d %d %d -1 %s plain %d" % (w, l, xi, ye, cs_text, p)); ids.append(l)
+            lt = fresh(); L.append("lim %s %d %d %d 1 %s plain %d" % (w, lt, xi, ye, cs_text, p)); ids.append(lt)
+        if base is None: base = ids
+        else:
+            for a, b in zip(base, ids): L.append("#! same %d %d" % (a, b))
+            L.append("#! sametok %d %d" % (base[1], ids[1]))
+            if cs_text is not None: L.append("#! sametok %d %d" % (base[3], ids[3]))
+    xe = fresh(); L.append("newe %d %s %d %s %d" % (xe, dom, n, r.choice(GRID_ESTATES), r.randrange(1 << 20)))
+    ye = fresh(); L.append("newe %d %s %d %s %d" % (ye, dom, n, r.choice(["marked"] + GRID_ESTATES), r.randrange(1 << 20)))
+    p = fresh(); L.append("widen %s %d %d %d -1" % (w, p, xe, ye))
 
 
 def box_elem(r, n):
@@ -606,6 +638,19 @@ def make_ps_case(seed, cid, quick=True, dom=None):
         r2 = fresh(); L.append("pswiden %s %s %d %d %d" % (cn, w, r2, x2, w2))
         L.append("#! pssame %s %d %d" % (kname, r1, r2))
         wid = r.choice([r1, r1, r2])
+    if r.random() < 0.6:
+        # the smaller powerset argument empty: no disjunct at all, or only empty disjuncts in various emptiness states
+        res = []
+        for k in range(3):
+            es = []
+            for _ in range(0 if k == 0 else r.randint(1, 2)):
+                e = fresh(); L.append("newe %d %s %d %s %d" % (e, dom, n, r.choice(["marked"] + GRID_ESTATES), r.randrange(1 << 20))); es.append(e)
+            ye = fresh(); L.append("psnew %d %s %d %d %s" % (ye, dom, n, len(es), " ".join(map(str, es))))
+            xr = wid
+            if k > 0:
+                xr = fresh(); L.append("psmk %d %d %d" % (xr, wid, r.randrange(1 << 20)))
+            rr = fresh(); L.append("pswiden %s %s %d %d %d" % (cn, w, rr, xr, ye)); res.append(rr)
+        L.append("#! pssame %s %d %d" % (kname, res[0], res[1])); L.append("#! pssame %s %d %d" % (kname, res[0], res[2]))
     L.append("end")
     return L
 
